@@ -73,71 +73,93 @@ def gen_lines(rng):
     return lines
 
 
-def run(ctx):
+def supported():
+    from maflib.scheme_factory import all_schemes
+    return [s.version() for s in all_schemes()], [s.annotation_spec() for s in all_schemes()]
+
+
+def eval_lines(lines, sv, sa):
+    """One sequence of header lines on the implementation + the property's oracle (parse exactness, print->parse,
+    accessors, header-level rules).  Returns a dict: failures, kept, errors (the grammar's answer), complete (False when
+    an early failure ended the evaluation), and what the implementation returned (got_kept, got_errs, printed)."""
     from maflib.header import MafHeader
-    from maflib.scheme_factory import all_schemes, find_scheme
+    from maflib.scheme_factory import find_scheme
     from maflib.validation import ValidationStringency as VS
+    h = MafHeader.from_lines(lines, validation_stringency=VS.Silent)
+    where = {"lines": lines}
+    kept, errors = expected_parse(lines)
+    got_kept = [(k, str(h[k])[len(k) + 2:]) for k in h]
+    got_errs = [[e.tpe.name, e.line_number] for e in h.validation_errors if e.line_number is not None]
+    res = {"failures": [], "kept": kept, "errors": errors, "complete": False, "got_kept": got_kept, "got_errs": got_errs,
+           "got_header_errs": [e.tpe.name for e in h.validation_errors if e.line_number is None], "printed": None}
+    failures = res["failures"]
+    if got_kept != kept:
+        failures.append(dict(where, what="kept pragmas differ from the grammar (key, value, position; first of duplicates)", kind="parse",
+                             expected=kept, got=got_kept))
+        return res
+    if got_errs != errors:
+        failures.append(dict(where, what="diagnosed lines differ (category / 1-based line number)", kind="diagnose", expected=errors, got=got_errs))
+        return res
+    # print -> parse identity
+    text = str(h)
+    lines2 = text.split("\n") if text else []
+    res["printed"] = lines2
+    h2 = MafHeader.from_lines(lines2, validation_stringency=VS.Silent)
+    if [(k, str(h2[k])) for k in h2] != [(k, str(h[k])) for k in h] or [e for e in h2.validation_errors if e.line_number is not None]:
+        failures.append(dict(where, what="printing the parsed header and parsing it again is not the identity", kind="print-parse",
+                             printed=lines2, reparsed=[(k, str(h2[k])) for k in h2],
+                             errors=[[e.tpe.name, e.line_number] for e in h2.validation_errors]))
+        return res
+    if str(h2) != text:
+        failures.append(dict(where, what="printing is not stable", kind="print-parse"))
+    # accessors
+    d = dict(kept)
+    acc_bad = []
+    if h.version() != d.get("version"):
+        acc_bad.append("version")
+    if h.annotation() != d.get("annotation.spec"):
+        acc_bad.append("annotation")
+    if (h.contigs() or None) != (d["contigs"].split(",") if "contigs" in d else None):
+        acc_bad.append("contigs")
+    if h.sort_order().name() != d.get("sort.order", "Unsorted"):
+        acc_bad.append("sort_order")
+    so = h.sort_order()
+    want_contigs = d["contigs"].split(",") if ("contigs" in d and d.get("sort.order") in ("Coordinate", "BarcodesAndCoordinate")) else []
+    if list(getattr(so, "_contigs", []) or []) != want_contigs:
+        acc_bad.append("sort_order contigs")
+    if acc_bad:
+        failures.append(dict(where, what="accessors do not reflect the pragmas: %s" % acc_bad, kind="accessor"))
+    # header-level rules
+    try:
+        sch = find_scheme(version=d.get("version"), annotation=d.get("annotation.spec"))
+    except ValueError:
+        sch = None
+    want = header_validation_rules(kept, sch is not None and sch.is_basic(), sv, sa)
+    got = res["got_header_errs"]
+    res["want_header_errs"] = want
+    if got != want:
+        failures.append(dict(where, what="header-level checks differ from the documented rules", kind="rules", expected=want, got=got))
+    res["complete"] = True
+    return res
+
+
+def run(ctx):
     out = Outcome()
     out.rule = ("sequences of header lines over the pragma grammar (start symbol, key, single-space separator, values with inner/trailing blanks, the four special keys with "
                 "recognised / unrecognised values, duplicates anywhere); parse exactness vs a direct grammar, print->parse identity, accessors, header-level rules, "
                 "derived-header independence; non-trivial = at least one kept pragma and one diagnosed line or a special key; distinct line sequences")
     rng = ctx.rng("hdr")
-    sv = [s.version() for s in all_schemes()]
-    sa = [s.annotation_spec() for s in all_schemes()]
+    sv, sa = supported()
     reqs = []
     for _ in range(ctx.scale(1200, 15000)):
         lines = gen_lines(rng)
         out.evaluations += 1
         reqs.append({"op": "hdr.lines", "lines": lines, "mode": "Silent"})
-        h = MafHeader.from_lines(lines, validation_stringency=VS.Silent)
-        where = {"lines": lines}
-        kept, errors = expected_parse(lines)
-        got_kept = [(k, str(h[k])[len(k) + 2:]) for k in h]
-        got_errs = [[e.tpe.name, e.line_number] for e in h.validation_errors if e.line_number is not None]
-        if got_kept != kept:
-            out.failures.append(dict(where, what="kept pragmas differ from the grammar (key, value, position; first of duplicates)", kind="parse",
-                                     expected=kept, got=got_kept))
+        res = eval_lines(lines, sv, sa)
+        out.failures += res["failures"]
+        if not res["complete"]:
             continue
-        if got_errs != errors:
-            out.failures.append(dict(where, what="diagnosed lines differ (category / 1-based line number)", kind="diagnose", expected=errors, got=got_errs))
-            continue
-        # print -> parse identity
-        text = str(h)
-        lines2 = text.split("\n") if text else []
-        h2 = MafHeader.from_lines(lines2, validation_stringency=VS.Silent)
-        if [(k, str(h2[k])) for k in h2] != [(k, str(h[k])) for k in h] or [e for e in h2.validation_errors if e.line_number is not None]:
-            out.failures.append(dict(where, what="printing the parsed header and parsing it again is not the identity", kind="print-parse",
-                                     printed=lines2, reparsed=[(k, str(h2[k])) for k in h2],
-                                     errors=[[e.tpe.name, e.line_number] for e in h2.validation_errors]))
-            continue
-        if str(h2) != text:
-            out.failures.append(dict(where, what="printing is not stable", kind="print-parse"))
-        # accessors
-        d = dict(kept)
-        acc_bad = []
-        if h.version() != d.get("version"):
-            acc_bad.append("version")
-        if h.annotation() != d.get("annotation.spec"):
-            acc_bad.append("annotation")
-        if (h.contigs() or None) != (d["contigs"].split(",") if "contigs" in d else None):
-            acc_bad.append("contigs")
-        if h.sort_order().name() != d.get("sort.order", "Unsorted"):
-            acc_bad.append("sort_order")
-        so = h.sort_order()
-        want_contigs = d["contigs"].split(",") if ("contigs" in d and d.get("sort.order") in ("Coordinate", "BarcodesAndCoordinate")) else []
-        if list(getattr(so, "_contigs", []) or []) != want_contigs:
-            acc_bad.append("sort_order contigs")
-        if acc_bad:
-            out.failures.append(dict(where, what="accessors do not reflect the pragmas: %s" % acc_bad, kind="accessor"))
-        # header-level rules
-        try:
-            sch = find_scheme(version=d.get("version"), annotation=d.get("annotation.spec"))
-        except ValueError:
-            sch = None
-        want = header_validation_rules(kept, sch is not None and sch.is_basic(), sv, sa)
-        got = [e.tpe.name for e in h.validation_errors if e.line_number is None]
-        if got != want:
-            out.failures.append(dict(where, what="header-level checks differ from the documented rules", kind="rules", expected=want, got=got))
+        kept, errors = res["kept"], res["errors"]
         if kept and (errors or any(k in ("version", "annotation.spec", "sort.order", "contigs") for k, _ in kept)):
             out.nontrivial.add(repr(lines))
         if len(out.samples) < 4 and errors and kept:
@@ -156,62 +178,158 @@ def run(ctx):
 
 def snapshot(h):
     so = h.sort_order()
-    return {"str": str(h), "keys": list(h), "errors": [(e.tpe.name, e.line_number) for e in h.validation_errors],
+    return {"str": str(h), "keys": list(h), "errors": [(e.tpe.name, e.line_number) if hasattr(e, "tpe") else repr(e) for e in h.validation_errors],
             "version": h.version(), "annotation": h.annotation(), "contigs": copy.deepcopy(h.contigs()),
             "sort": so.name(), "sort_contigs": list(getattr(so, "_contigs", []) or [])}
 
 
-def derived_header_cases(ctx, out, rng):
-    """A header derived from a reader is independent of the reader's own header."""
-    from maflib.header import MafHeader, MafHeaderRecord, MafHeaderVersionRecord
+MUTATIONS = ["set", "del", "inplace-value", "inplace-key", "contigs-append", "errors", "sort-contigs"]
+NEEDS_KEY = ("del", "inplace-value", "inplace-key")
+
+
+def eval_derived(lines, args, next_step):
+    """A header derived from a reader (MafHeader.from_reader with the overrides named in `args`) is mutated step by step;
+    the reader's own header must not change.  `next_step(d)` is asked for the next mutation with the derived header in its
+    current state and answers {"m": mutation, "key": pragma key it applies to (del / inplace-*) or None} or None when done
+    (run draws the steps from its random stream, replay_case reads them from the stored failure).
+    Returns (steps, failures)."""
+    from maflib.header import MafHeader, MafHeaderRecord
     from maflib.reader import MafReader
     from maflib.sort_order import Coordinate
+    reader = MafReader(lines=lines + ["a\tb"])
+    before = snapshot(reader.header())
+    kw = {}
+    if "version" in args:
+        kw["version"] = "gdc-2.0.0"
+    if "contigs" in args:
+        kw["contigs"] = ["1", "2"]
+    if "sort_order" in args:
+        kw["sort_order"] = Coordinate()
+    d = MafHeader.from_reader(reader, **kw)
+    steps = []
+    while True:
+        st = next_step(d)
+        if st is None:
+            break
+        steps.append(st)
+        m, key = st["m"], st.get("key")
+        try:
+            if m == "set":
+                d["center"] = MafHeaderRecord("center", "other")
+            elif m == "del":
+                if key is None:
+                    raise IndexError("nothing to delete")
+                del d[key]
+            elif m == "inplace-value":
+                if key is None:
+                    raise IndexError("no pragma")
+                if isinstance(d[key].value, str):
+                    d[key].value = "changed"
+            elif m == "inplace-key":
+                if key is None:
+                    raise IndexError("no pragma")
+                d[key].key = "renamed"
+            elif m == "contigs-append" and d.contigs() is not None:
+                d.contigs().append("chrZ")
+            elif m == "errors":
+                d.validation_errors.append("x")
+            elif m == "sort-contigs":
+                so = d.sort_order()
+                if getattr(so, "_contigs", None) is not None:
+                    so._contigs.append("chrQ")
+        except Exception:  # noqa
+            pass
+    after = snapshot(reader.header())
+    failures = []
+    if after != before:
+        failures.append({"what": "mutating a header derived from a reader changed the reader's own header", "kind": "derived-aliasing",
+                         "lines": lines, "from_reader_args": sorted(kw), "mutations": [st["m"] for st in steps], "steps": steps,
+                         "changed": [k for k in before if before[k] != after[k]],
+                         "before": {k: before[k] for k in before if before[k] != after[k]},
+                         "after": {k: after[k] for k in before if before[k] != after[k]}})
+    return steps, failures
+
+
+def derived_header_cases(ctx, out, rng):
+    """A header derived from a reader is independent of the reader's own header."""
     for _ in range(ctx.scale(150, 1500)):
         lines = filecases.typical_header(rng, rng.choice(["gdc-1.0.0", "gdc-1.0.0-public"]),
                                          sort=rng.choice([None, "Coordinate", "BarcodesAndCoordinate"]),
                                          contigs=rng.choice([None, ["chr1", "chr2"]])) + ["#center x", "#note y z"]
         out.evaluations += 1
-        reader = MafReader(lines=lines + ["a\tb"])
-        before = snapshot(reader.header())
-        kw = {}
+        args = []
         if rng.random() < 0.3:
-            kw["version"] = "gdc-2.0.0"
+            args.append("version")
         if rng.random() < 0.3:
-            kw["contigs"] = ["1", "2"]
+            args.append("contigs")
         if rng.random() < 0.3:
-            kw["sort_order"] = Coordinate()
-        d = MafHeader.from_reader(reader, **kw)
-        muts = []
-        for _k in range(rng.randrange(1, 5)):
-            m = rng.choice(["set", "del", "inplace-value", "inplace-key", "contigs-append", "errors", "sort-contigs"])
-            muts.append(m)
-            try:
-                if m == "set":
-                    d["center"] = MafHeaderRecord("center", "other")
-                elif m == "del":
-                    del d[rng.choice(list(d))]
-                elif m == "inplace-value":
-                    k = rng.choice(list(d))
-                    if isinstance(d[k].value, str):
-                        d[k].value = "changed"
-                elif m == "inplace-key":
-                    d[rng.choice(list(d))].key = "renamed"
-                elif m == "contigs-append" and d.contigs() is not None:
-                    d.contigs().append("chrZ")
-                elif m == "errors":
-                    d.validation_errors.append("x")
-                elif m == "sort-contigs":
-                    so = d.sort_order()
-                    if getattr(so, "_contigs", None) is not None:
-                        so._contigs.append("chrQ")
-            except Exception:  # noqa
-                pass
-        after = snapshot(reader.header())
-        if after != before:
-            out.failures.append({"what": "mutating a header derived from a reader changed the reader's own header", "kind": "derived-aliasing",
-                                 "lines": lines, "from_reader_args": sorted(kw), "mutations": muts,
-                                 "changed": [k for k in before if before[k] != after[k]]})
-        out.nontrivial.add(("derived", repr(lines), tuple(muts)))
+            args.append("sort_order")
+        left = [rng.randrange(1, 5)]
+
+        def next_step(d):
+            if left[0] == 0:
+                return None
+            left[0] -= 1
+            m = rng.choice(MUTATIONS)
+            key = None
+            if m in NEEDS_KEY:
+                try:
+                    key = rng.choice(list(d))
+                except IndexError:          # nothing left in the derived header
+                    key = None
+            return {"m": m, "key": key}
+        steps, failures = eval_derived(lines, args, next_step)
+        out.failures += failures
+        out.nontrivial.add(("derived", repr(lines), tuple(st["m"] for st in steps)))
+
+
+def replay_case(ctx, failure):
+    """Re-evaluate the stored lines (and, for a derived header, the stored mutation steps) on the current implementation;
+    the failures they produce now ([] = property holds)."""
+    lines = failure.get("lines")
+    if not isinstance(lines, list):
+        return None
+    if failure.get("kind") == "derived-aliasing":
+        steps = failure.get("steps")
+        if steps is None or "from_reader_args" not in failure:
+            return None                     # written before the mutation steps were stored
+        todo = [dict(st) for st in steps]
+        got, failures = eval_derived(list(lines), list(failure["from_reader_args"]), lambda d: todo.pop(0) if todo else None)
+        print("replay C13: MafReader over %r (+ one data line); MafHeader.from_reader(reader%s); mutations of the derived header:" % (
+            lines, "".join(", %s=..." % a for a in failure["from_reader_args"])))
+        for st in got:
+            print("  %s%s" % (st["m"], "" if st.get("key") is None else " %r" % st["key"]))
+        if failures:
+            for k in failures[0]["changed"]:
+                print("  reader's own header, %s: before %r, after %r" % (k, failures[0]["before"][k], failures[0]["after"][k]))
+        else:
+            print("  implementation: the reader's own header is unchanged")
+        for f in failures:
+            print("  oracle: %s" % f["what"])
+        return failures
+    sv, sa = supported()
+    res = eval_lines(list(lines), sv, sa)
+    print("replay C13: MafHeader.from_lines(%r, Silent)" % (lines,))
+    print("  implementation: kept %s; diagnosed lines %s; header-level errors %s" % (res["got_kept"], res["got_errs"], res["got_header_errs"]))
+    print("  grammar:        kept %s; diagnosed lines %s%s" % (res["kept"], res["errors"],
+                                                               "; header-level errors %s" % res["want_header_errs"] if "want_header_errs" in res else ""))
+    if res["printed"] is not None:
+        print("  printed: %r" % (res["printed"],))
+    if getattr(ctx, "driver_ok", True) and ctx.driver.available():
+        r = {"op": "hdr.lines", "lines": list(lines), "mode": "Silent"}
+        m = ctx.driver.run([r])[0]
+        i = impl.run(r)
+        if has_unmodelled(m):
+            verdict = "outside the model"
+        elif m == i:
+            verdict = "same as the implementation"
+        else:
+            verdict = "DIFFERS from the implementation on %s" % [k for k in sorted(set(m) | set(i)) if m.get(k) != i.get(k)]
+        mh = m.get("header", {}) if isinstance(m, dict) else {}
+        print("  model: records %s; errors %s (%s)" % (mh.get("records", m.get("exc") if isinstance(m, dict) else m), mh.get("errors"), verdict))
+    for f in res["failures"]:
+        print("  oracle: %s" % f["what"])
+    return res["failures"]
 
 
 def search(ctx):
